@@ -106,6 +106,20 @@ func xmlUnmarshalElement(el *etree.Element, obj interface{}) error {
 	return nil
 }
 
+// xmlUnmarshalUnverified decodes raw XML the same way the validating entry points decode an
+// unsigned root element (etree parse, then xmlUnmarshalElement), so that the unverified
+// decoders and full validation agree on duplicated or namespace-prefixed attributes.
+func xmlUnmarshalUnverified(data []byte, obj interface{}) error {
+	doc := etree.NewDocument()
+	if err := doc.ReadFromBytes(data); err != nil {
+		return err
+	}
+	if doc.Root() == nil {
+		return fmt.Errorf("unable to parse response")
+	}
+	return xmlUnmarshalElement(doc.Root(), obj)
+}
+
 func (sp *SAMLServiceProvider) getDecryptCert() (*tls.Certificate, error) {
 	if sp.SPKeyStore == nil {
 		return nil, fmt.Errorf("no decryption certs available")
@@ -416,7 +430,7 @@ func DecodeUnverifiedBaseResponse(encodedResponse string) (*types.UnverifiedBase
 
 	err = maybeDeflate(raw, defaultMaxDecompressedResponseSize, func(maybeXML []byte) error {
 		response = &types.UnverifiedBaseResponse{}
-		return xml.Unmarshal(maybeXML, response)
+		return xmlUnmarshalUnverified(maybeXML, response)
 	})
 	if err != nil {
 		return nil, err
@@ -492,7 +506,7 @@ func DecodeUnverifiedLogoutResponse(encodedResponse string) (*types.LogoutRespon
 
 	err = maybeDeflate(raw, defaultMaxDecompressedResponseSize, func(maybeXML []byte) error {
 		response = &types.LogoutResponse{}
-		return xml.Unmarshal(maybeXML, response)
+		return xmlUnmarshalUnverified(maybeXML, response)
 	})
 	if err != nil {
 		return nil, err
